@@ -22,6 +22,16 @@ pub struct JobOutput {
 
 static CUR_JOB: AtomicUsize = AtomicUsize::new(usize::MAX);
 static CUR_START_MS: AtomicU64 = AtomicU64::new(0);
+static CUR_START_CPU_MS: AtomicU64 = AtomicU64::new(0);
+
+/// CPU time used by this process so far (all threads), in ms.
+fn cpu_ms() -> u64 {
+    let mut ts = libc::timespec { tv_sec: 0, tv_nsec: 0 };
+    unsafe {
+        libc::clock_gettime(libc::CLOCK_PROCESS_CPUTIME_ID, &mut ts);
+    }
+    ts.tv_sec as u64 * 1000 + ts.tv_nsec as u64 / 1_000_000
+}
 
 pub fn worker_main(args: &[String]) -> i32 {
     let mut engine = String::new();
@@ -79,7 +89,14 @@ pub fn worker_main(args: &[String]) -> i32 {
             }
             let started = CUR_START_MS.load(Ordering::SeqCst);
             let now = t0.elapsed().as_millis() as u64;
-            if now.saturating_sub(started) > timeout_ms && CUR_JOB.load(Ordering::SeqCst) == cur {
+            // the limit is on the CPU time the process has used since the job started: a
+            // non-terminating computation burns CPU, whereas an overloaded machine only stretches
+            // the wall clock (a full C19 campaign next to six compilations produced ten spurious
+            // "hangs" with a wall-clock limit). The wall clock is only a backstop at 8x the limit
+            // for a job that is blocked without using CPU.
+            let cpu_used = cpu_ms().saturating_sub(CUR_START_CPU_MS.load(Ordering::SeqCst));
+            let wall_used = now.saturating_sub(started);
+            if (cpu_used > timeout_ms || wall_used > timeout_ms.saturating_mul(8)) && CUR_JOB.load(Ordering::SeqCst) == cur {
                 if let Ok(mut f) = outf.lock() {
                     let _ = writeln!(f, "T {}", cur);
                     let _ = f.flush();
@@ -119,6 +136,7 @@ pub fn worker_main(args: &[String]) -> i32 {
                 _ => log::LevelFilter::Trace,
             },
         });
+        CUR_START_CPU_MS.store(cpu_ms(), Ordering::SeqCst);
         CUR_START_MS.store(t0.elapsed().as_millis() as u64, Ordering::SeqCst);
         CUR_JOB.store(idx, Ordering::SeqCst);
         let o = crate::engines::run_job(&mut ctx, &job);
